@@ -158,6 +158,16 @@ func runCheck(o *Options) int {
 		return 1
 	}
 	v := newVerifier(p)
+	// a contract that belongs to no property would be assumed by its callers but never checked
+	for _, k := range sortedKeys(p.contracts) {
+		fc := p.contracts[k]
+		if fc.Trusted || fc.Ghost || p.isGhostKey(k) || strings.Contains(k, ".type:") || len(fc.Props) > 0 {
+			continue
+		}
+		if len(fc.Ensures) > 0 {
+			v.problems = append(v.problems, "contract of "+k+" belongs to no property: its ensures clauses would be assumed without ever being checked")
+		}
+	}
 	var keys []string
 	for _, k := range sortedKeys(p.contracts) {
 		fc := p.contracts[k]
